@@ -251,10 +251,10 @@ class ExpressionParser(ParserBase):
             (_f_and, pytools.lex.RE(r"\.and\.", re.IGNORECASE)),
             (_f_or, pytools.lex.RE(r"\.or\.", re.IGNORECASE)),
             (_f_not, pytools.lex.RE(r"\.not\.", re.IGNORECASE)),
-            (_f_float, ("|", pytools.lex.RE(r"[0-9]+\.[0-9]*([eEdD][+-]?[0-9]+)?(_([\w$]+|[0-9]+))+$", re.IGNORECASE))),
+            (_f_float, ("|", pytools.lex.RE(r"[0-9]+\.[0-9]*([eEdD][+-]?[0-9]+)?(_([\w$]+|[0-9]+))+", re.IGNORECASE))),
             (_f_int, pytools.lex.RE(r"[0-9]+?(_[a-zA-Z]*)", re.IGNORECASE)),
-            (_f_string, ("|", pytools.lex.RE(r'\".*\"', re.IGNORECASE),
-                pytools.lex.RE(r"\'.*\'", re.IGNORECASE))),
+            (_f_string, ("|", pytools.lex.RE(r'\"(?:[^\"]|\"\")*\"', re.IGNORECASE),
+                pytools.lex.RE(r"\'(?:[^\']|\'\')*\'", re.IGNORECASE))),
             (_f_openbracket, pytools.lex.RE(r"\(/")),
             (_f_closebracket, pytools.lex.RE(r"/\)")),
             (_f_derived_type, pytools.lex.RE(r"\%")),
